@@ -751,6 +751,27 @@ class Facts:
     def body(self, key):
         return self.bodies.get(key)
 
+    def method(self, adt, name, trait=None):
+        """body of the inherent (trait=None) or trait method `name` of ADT `adt`, independent of the
+        module the impl block lives in and of generic parameter spelling. None if absent/ambiguous."""
+        if not hasattr(self, '_midx'):
+            idx = defaultdict(list)
+            for k, b in self.bodies.items():
+                if b.kind == 'method':
+                    nm = k.rsplit('::', 1)[-1]
+                    idx[(b.meta.get('impl_self'), nm, b.meta.get('impl_trait'))].append(b)
+            self._midx = idx
+        if trait is None:
+            c = self._midx.get((adt, name, None), [])
+        else:
+            c = [b for (a, n, t), bs in self._midx.items() if a == adt and n == name and t and t.split('<')[0] == trait
+                 for b in bs]
+        return c[0] if len(c) == 1 else None
+
+    def methods(self, adt):
+        self.method(adt, '')
+        return [b for (a, n, t), bs in self._midx.items() if a == adt for b in bs]
+
     def find(self, pat):
         return [k for k in self.bodies if pat in k]
 
@@ -909,8 +930,13 @@ def cond_facts(facts, body, bb):
                 truth = False
             else:
                 continue
-            for f in bool_facts(cond, truth):
-                out.append((tb, lab, f))
+            c0 = strip(cond)
+            if c0[0] == 'phi':
+                alts = bool_dnf(c0, truth)
+                out.append((tb, lab, ('dnf', tuple(tuple(a) for a in alts), c0, truth)))
+            else:
+                for f in bool_facts(cond, truth):
+                    out.append((tb, lab, f))
         return out
     # discriminant switch
     c = strip(cond)
@@ -1043,6 +1069,28 @@ def bool_facts(node, truth):
     return [('bool', n, truth)]
 
 
+def bool_dnf(node, truth, depth=0):
+    """disjunctive form of `node == truth`: list of alternatives, each a list of atomic facts.
+    A phi of several definitions is a disjunction; constant alternatives that contradict `truth`
+    are dropped; a constant alternative equal to `truth` is an unconstrained alternative ([])."""
+    n = strip(node)
+    if n[0] == 'phi' and depth < 4:
+        out = []
+        for alt in n[1]:
+            a = strip(alt)
+            if a[0] == 'const' and a[1] in ('true', 'false'):
+                if (a[1] == 'true') == truth:
+                    out.append([])
+                continue
+            out += bool_dnf(a, truth, depth + 1)
+        return out
+    if n[0] == 'un' and n[1] == 'Not':
+        return bool_dnf(n[2], not truth, depth)
+    if n[0] == 'const' and n[1] in ('true', 'false'):
+        return [[]] if (n[1] == 'true') == truth else []
+    return [bool_facts(n, truth)]
+
+
 def rel_matches(fact, opclass, left_leafs, right_leafs, either_order=True):
     """does ('rel', op, A, B) state `L opclass R` with L containing left_leafs and R right_leafs?
     opclass: 'lt' (Lt or Le), 'gt', 'eq', 'ne', 'any'."""
@@ -1147,7 +1195,15 @@ def guard_edges(facts, body, pred):
             continue
         for tb, lab, fact in cond_facts(facts, body, bi):
             try:
-                ok = pred(fact)
+                if fact[0] == 'dnf':
+                    # a bool merged from several definitions: the guard must follow from every
+                    # possible definition (alternatives contradicting the edge were dropped);
+                    # lib.derived_guard_edges refines this with reachability of each definition
+                    ok = bool(fact[1]) and all(any(pred(f) for f in alt) for alt in fact[1])
+                    if not ok:
+                        ok = pred(('bool', fact[2], fact[3]))
+                else:
+                    ok = pred(fact)
             except Exception:
                 ok = False
             if ok:
